@@ -77,6 +77,21 @@ func init() {
 // break as a space. The repository's own formatter golden test pins this output.
 const KnownInlineBroken = "c08-inline-element-with-line-spanning-children-glued-to-inline-sibling"
 
+// hasLineEndingChild: one of the children always ends its line when the formatter writes it
+// (everything that carries no trailing-space information: calls, children, comments, control
+// flow, script and style elements), so the formatter lays the element out as a block.
+func hasLineEndingChild(ns []parser.Node) bool {
+	for _, n := range ns {
+		if _, ws := n.(parser.Whitespace); ws {
+			continue
+		}
+		if _, ok := n.(parser.WhitespaceTrailer); !ok {
+			return true
+		}
+	}
+	return false
+}
+
 func inKnownInlineBroken(src string) bool {
 	tf, err := parser.ParseString(src)
 	if err != nil {
@@ -107,7 +122,7 @@ func inKnownInlineBroken(src string) bool {
 			}
 			switch y := ns[i+1].(type) {
 			case parser.Element:
-				if !y.IsBlockElement() && y.IndentChildren {
+				if !y.IsBlockElement() && (y.IndentChildren || hasLineEndingChild(y.Children)) {
 					found = true
 				}
 			case parser.IfExpression, parser.ForExpression, parser.SwitchExpression:
@@ -153,6 +168,9 @@ func inKnownBodyWhitespace(src string) bool {
 				break
 			}
 			if _, ws := n.(parser.Whitespace); ws {
+				if i > 0 {
+					found = true // an interior whitespace node: rendered as a space, dropped by the formatter
+				}
 				continue
 			}
 			if _, trailer := n.(parser.WhitespaceTrailer); trailer {
